@@ -2175,7 +2175,8 @@ class SourceCatalog:
         else:
             xcen = self._xcentroid
             ycen = self._ycentroid
-            bkg = map_coordinates(self._background, (xcen, ycen), order=1,
+            # array coordinates are (row, column) = (y, x)
+            bkg = map_coordinates(self._background, (ycen, xcen), order=1,
                                   mode='nearest')
 
             mask = np.isfinite(xcen) & np.isfinite(ycen)
